@@ -45,6 +45,8 @@ class Analysis:
             grammars = [grammars]
         self.rules = {}
         self.params = {}
+        if len(grammars) > 1:
+            grammars = self._flatten_chain(grammars)
         for G in grammars:
             for s in G['stmts']:
                 k = s[0]
@@ -60,6 +62,61 @@ class Analysis:
                 elif k == 'class':
                     self.rules[s[1]] = ('class', s[3])
                     self.params[s[1]] = s[2]
+        self._solve()
+
+    @staticmethod
+    def _flatten_chain(grammars):
+        """An extends-chain as one namespace: the most derived definition keeps the plain name
+        (late binding), shadowed definitions are renamed name@level and `super.R` becomes a plain
+        reference to the definition it denotes."""
+        defined = {}
+        for lvl, G in enumerate(grammars):
+            for s in G['stmts']:
+                if s[0] in ('rule', 'irule', 'class'):
+                    defined.setdefault(s[1], []).append(lvl)
+
+        def key(name, lvl):
+            levels = defined.get(name, [])
+            if not levels or lvl == levels[-1]:
+                return name
+            return '%s@%d' % (name, lvl)
+
+        def below(name, lvl):
+            levels = [l for l in defined.get(name, []) if l < lvl]
+            if not levels:
+                return name + '@missing'
+            return key(name, levels[-1])
+
+        out = []
+        for lvl, G in enumerate(grammars):
+            def fix(e, lvl=lvl):
+                if e[0] == 'super':
+                    return ('ref', below(e[1], lvl))
+                return map_children(e, fix)
+            stmts = []
+            for s in G['stmts']:
+                if s[0] == 'rule':
+                    stmts.append(('rule', key(s[1], lvl), s[2], fix(s[3])))
+                elif s[0] == 'irule':
+                    stmts.append(('irule', key(s[1], lvl), fix(s[2])))
+                elif s[0] == 'class':
+                    ms = []
+                    for m in s[3]:
+                        if m[0] in ('field', 'let'):
+                            ms.append((m[0], m[1], fix(m[2])))
+                        elif m[0] == 'pass':
+                            ms.append(('pass', fix(m[1])))
+                        else:
+                            ms.append(m)
+                    stmts.append(('class', key(s[1], lvl), s[2], ms))
+                elif s[0] == 'ignore':
+                    stmts.append(('ignore', fix(s[1])))
+                else:
+                    stmts.append(s)
+            out.append(dict(name=None, extends=None, stmts=stmts))
+        return out
+
+    def _solve(self):
         # Bellman-Ford style: start from "never succeeds" (+inf) and relax downwards; this
         # yields the exact minimal net width of every rule (clipped), NEG on negative cycles
         self.minw_rule = {n: POSW for n in self.rules}
